@@ -56,9 +56,11 @@ func (o *OnceHandle) Once() Component {
 			return nil
 		}
 		v.setHasBeenRendered(o)
+		children := GetChildren(ctx)
+		ctx = ClearChildren(ctx)
 		if o.c != nil {
 			return o.c.Render(ctx, w)
 		}
-		return GetChildren(ctx).Render(ctx, w)
+		return children.Render(ctx, w)
 	})
 }
